@@ -387,9 +387,9 @@ def r4(run, ctx):
         run.check('R4', guarded(cfg, n, lambda e: True if norm_text(e) == 'option in fmt_options'
                                 else None, True) and norm_text(n.ast.value) == 'str(fmt_options[option])',
                   'the replacement is str(value)', rp, n.ast)
-    last = f.node.body[-1]
-    run.check('R4', isinstance(last, ast.Return) and norm_text(last.value) == 'match.sub(_repl, data)',
-              'every occurrence is substituted', f, last)
+    frets = [x for x in walk_local(f.node) if isinstance(x, ast.Return)]
+    run.check('R4', len(frets) == 1 and astq.has_pattern(frets[0], 'return $m.sub(_repl, data)'),
+              'every occurrence is substituted', f, frets[0] if frets else f.node)
     run.check('R4', "elif prefix == 'circus': match = _CIRCUS_VAR" in txt or
               "match = _CIRCUS_VAR" in txt, 'the circus prefix uses the precompiled pattern', f, f.node)
 
